@@ -81,7 +81,7 @@ def run(ctx):
         cand = pool.get(_semkey(c["sem"]))
         if not cand:
             raise vlib.Infra("no program generated for semantic stack %s" % c["sem"])
-        reading = [x for x in cand if x["reads"] > 0] or cand
+        reading = [x for x in cand if x.get("reads1", 0) > 0] or [x for x in cand if x["reads"] > 0] or cand
         k = 1 if c["size"] > 4 * 1024 * 1024 else per
         chosen = [rng.choice(reading)] + [rng.choice(cand) for _ in range(k - 1)]
         for x in chosen:
